@@ -1046,6 +1046,7 @@ func (fc *FuncCtx) debugName(in ssa.Instruction, vars map[string]TV) {
 		if d.Comment != "" {
 			if tv, ok := fc.val[d]; ok && tv.L != nil {
 				vars[d.Comment] = TV{L: tv.L, G: tv.L.gt}
+				vars["&"+d.Comment] = TV{T: tv.T, S: "Int", G: d.Type()} // addr(name) in contracts
 			}
 		}
 	}
